@@ -10,6 +10,7 @@ import (
 	"encoding/json"
 	"fmt"
 	"io"
+	"math/big"
 	"runtime/debug"
 	"strings"
 	"testing"
@@ -138,7 +139,12 @@ func genLines(r interface{ IntN(int) int }, n int, includes []string, damage boo
 				out = append(out, records[r.IntN(len(records))])
 				continue
 			}
-			switch r.IntN(10) {
+			switch r.IntN(11) {
+			case 10:
+				// a $GENERATE whose text runs over several lines: the lexer reads \\" as an escaped
+				// backslash and an opening quote, so the following lines belong to the directive
+				hi := []int{1, 3, 20, 20, 300}[r.IntN(5)]
+				out = append(out, fmt.Sprintf("$GENERATE %d-%d a$ TXT \\\\\"x", r.IntN(2), hi), "b$ A 192.0.2.$", "c$ TXT \\\\\"y")
 			case 0:
 				out = append(out, "nul\x00byte 300 IN A 192.0.2.1")
 			case 1:
@@ -268,8 +274,15 @@ func Gen(seed uint64, tier string) any {
 			default:
 				ft.At = r.IntN(size + 1)
 			}
+			if core.Chance(r, 25) {
+				// a transient error: the read fails once, a retry would have succeeded
+				ft.Once = true
+				if core.Chance(r, 50) {
+					ft.At = r.IntN(4) // before the reader has seen its first few octets
+				}
+			}
 			if f.Name != sc.Files[0].Name && core.Chance(r, 40) {
-				ft.Kind = core.Pick(r, "notexist", "perm", "emfile", "dir")
+				ft.Kind, ft.Once = core.Pick(r, "notexist", "perm", "emfile", "dir", "plainerr", "wrappederr"), false
 			}
 			if core.Chance(r, 20) {
 				ft.Nth = 1 + r.IntN(2)
@@ -629,7 +642,7 @@ func runZone(sc *Scenario, res *core.Result, logf func(string, ...any)) {
 		return
 	}
 	// properties of the text itself
-	nGen, nLines, nested := 0, 0, false
+	nGen, nLines, nested, genMax := 0, 0, false, 0
 	for i, f := range sc.Files {
 		opens := ref.fs.OpenCount[f.Name]
 		if i == 0 {
@@ -639,6 +652,7 @@ func runZone(sc *Scenario, res *core.Result, logf func(string, ...any)) {
 			nLines += opens
 			if strings.HasPrefix(strings.ToUpper(l), "$GENERATE") {
 				nGen += opens
+				genMax += opens * genSteps(l)
 			}
 		}
 	}
@@ -666,6 +680,11 @@ func runZone(sc *Scenario, res *core.Result, logf func(string, ...any)) {
 	res.Bump("oracle.P7_generate_bound")
 	if len(ref.recs) > nGen*65536+nLines {
 		res.Fail("P7", "generate-unbounded", "%d records from a tree with %d $GENERATE directives and %d lines", len(ref.recs), nGen, nLines)
+		return
+	}
+	// sharper: a $GENERATE denotes at most one record per step of its own range
+	if len(ref.recs) > genMax+nLines {
+		res.Fail("P7", "generate-more-than-one-record-per-step", "%d records from a tree whose %d $GENERATE directive(s) have %d steps in all and which has %d lines", len(ref.recs), nGen, genMax, nLines)
 		return
 	}
 	if nested {
@@ -736,7 +755,8 @@ func runZone(sc *Scenario, res *core.Result, logf func(string, ...any)) {
 			for _, f := range sc.Files {
 				for at := 0; at <= len(f.Text()); at++ {
 					c := *sc
-					c.Faults = []simfs.Fault{{File: f.Name, Kind: "readerr", At: at}}
+					// odd run seeds sweep transient errors (the read fails once), even ones lasting errors
+					c.Faults = []simfs.Fault{{File: f.Name, Kind: "readerr", At: at, Once: sc.RunSeed%2 == 1}}
 					c.ShortRead = 0
 					faultyRun(&c, res, ref, func(string, ...any) {})
 					if res.Verdict != core.OK {
@@ -752,6 +772,34 @@ func runZone(sc *Scenario, res *core.Result, logf func(string, ...any)) {
 		}
 	}
 	faultyRun(sc, res, ref, logf)
+}
+
+// genSteps returns how many steps the range of a $GENERATE line has (own
+// reading of "start-stop[/step]"), 65536 when in doubt or above.
+func genSteps(l string) int {
+	f := strings.Fields(l)
+	if len(f) < 2 {
+		return 65536
+	}
+	rng, step := f[1], new(big.Int).SetInt64(1)
+	if i := strings.IndexByte(rng, '/'); i >= 0 {
+		if _, ok := step.SetString(rng[i+1:], 10); !ok || step.Sign() <= 0 {
+			return 65536
+		}
+		rng = rng[:i]
+	}
+	a, b, ok := strings.Cut(rng, "-")
+	lo, ok1 := new(big.Int).SetString(a, 10)
+	hi, ok2 := new(big.Int).SetString(b, 10)
+	if !ok || !ok1 || !ok2 || hi.Cmp(lo) < 0 {
+		return 65536
+	}
+	n := new(big.Int).Sub(hi, lo)
+	n.Div(n, step).Add(n, big.NewInt(1))
+	if !n.IsInt64() || n.Int64() > 65536 {
+		return 65536
+	}
+	return int(n.Int64())
 }
 
 // faultyRun parses the tree under sc's faults and judges it against the
@@ -849,9 +897,56 @@ func directiveInterrupted(sc *Scenario) bool {
 			if strings.HasPrefix(strings.TrimLeft(t[ls:], " \t"), "$") {
 				return true
 			}
+			// a directive whose text runs over several lines (an open quote or
+			// parenthesis): the line on which the open construct began decides
+			if ls := logicalLineStart(t, f.At); strings.HasPrefix(strings.TrimLeft(t[ls:], " \t"), "$") {
+				return true
+			}
 		}
 	}
 	return false
+}
+
+// logicalLineStart returns the offset at which the logical line holding offset
+// at begins: newlines inside quotes or parentheses do not end a line (the
+// lexer's rules: a backslash takes the next octet with it, a semicolon
+// outside quotes starts a comment that runs to the end of the physical line).
+func logicalLineStart(t string, at int) int {
+	start, inQuote, depth, comment := 0, false, 0, false
+	for i := 0; i < len(t) && i < at; i++ {
+		c := t[i]
+		if c == '\n' {
+			comment = false
+			if !inQuote && depth == 0 {
+				start = i + 1
+			}
+			continue
+		}
+		if comment {
+			continue
+		}
+		switch c {
+		case '\\':
+			if i+1 < len(t) && t[i+1] != '\n' {
+				i++
+			}
+		case '"':
+			inQuote = !inQuote
+		case ';':
+			if !inQuote {
+				comment = true
+			}
+		case '(':
+			if !inQuote {
+				depth++
+			}
+		case ')':
+			if !inQuote && depth > 0 {
+				depth--
+			}
+		}
+	}
+	return start
 }
 
 // strayParen returns the index of the first line that holds an unmatched ")"
@@ -895,8 +990,17 @@ func balanced(lines []string) bool {
 		if strings.ContainsAny(l, "\x00") || strings.HasSuffix(l, "\\") {
 			return false
 		}
-		q := strings.Count(l, "\"") - strings.Count(l, "\\\"")
-		if q%2 != 0 {
+		// quotes as the lexer sees them: a backslash takes the next octet with it
+		inQuote := false
+		for i := 0; i < len(l); i++ {
+			switch l[i] {
+			case '\\':
+				i++
+			case '"':
+				inQuote = !inQuote
+			}
+		}
+		if inQuote {
 			return false
 		}
 		// parentheses outside quotes and comments only matter; count crudely
